@@ -8,6 +8,7 @@ R     : Regex vectors replayed on the real RegexSet; Gen_Allow.tla behaviours (p
 """
 import json
 import os
+import re
 import subprocess
 
 import common as C
@@ -237,10 +238,14 @@ def rustc_batch(texts, workdir, name, edition="2021"):
             f.write("#![allow(warnings)]\n")
             for i in idx:
                 f.write("pub mod c%d {\n%s\n}\n" % (i, texts[i]))
-        p = subprocess.run(["rustc", "--edition", edition, "--crate-type", "lib", "--emit=metadata", "-o",
-                            os.path.join(workdir, name + ".rmeta"), src],
-                           stdout=subprocess.PIPE, stderr=subprocess.STDOUT, text=True)
-        return p.returncode == 0, p.stdout
+        for attempt in range(3):
+            p = subprocess.run(["rustc", "--edition", edition, "--crate-type", "lib", "--emit=metadata", "-o",
+                                os.path.join(workdir, name + ".rmeta"), src],
+                               stdout=subprocess.PIPE, stderr=subprocess.STDOUT, text=True)
+            # a compiler that dies without a diagnostic (killed, out of memory) says nothing about the bindings
+            if p.returncode == 0 or re.search(r"^error", p.stdout, re.M):
+                return p.returncode == 0, p.stdout
+        raise C.ToolError("rustc failed without a diagnostic (rc=%s): %s" % (p.returncode, p.stdout[-400:]))
     ok, out = compile_(list(range(len(texts))))
     if ok:
         return [], ""
